@@ -60,6 +60,8 @@ func genC13(seed uint64, idx int, tier string) interface{} {
 		switch {
 		case r.Bool(0.04):
 			pl.Inputs = append(pl.Inputs, GenLongInput(ir, v))
+		case r.Bool(0.15): // 1-4 KB: size-gated fast paths and pools
+			pl.Inputs = append(pl.Inputs, GenInput(ir, v, 60))
 		default:
 			pl.Inputs = append(pl.Inputs, GenInput(ir, v, 10))
 		}
